@@ -89,65 +89,65 @@ Record state := mkState {
 
 (** record updates *)
 Definition setac_nonce (r : account) (v : N) : account :=
-  match r with mkAccount x0 x1 x2 x3 => mkAccount v x1 x2 x3 end.
+  mkAccount v (ac_balance r) (ac_code r) (ac_storage r).
 Definition setac_balance (r : account) (v : Z) : account :=
-  match r with mkAccount x0 x1 x2 x3 => mkAccount x0 v x2 x3 end.
+  mkAccount (ac_nonce r) v (ac_code r) (ac_storage r).
 Definition setac_code (r : account) (v : N) : account :=
-  match r with mkAccount x0 x1 x2 x3 => mkAccount x0 x1 v x3 end.
+  mkAccount (ac_nonce r) (ac_balance r) v (ac_storage r).
 Definition setac_storage (r : account) (v : N -> N) : account :=
-  match r with mkAccount x0 x1 x2 x3 => mkAccount x0 x1 x2 v end.
+  mkAccount (ac_nonce r) (ac_balance r) (ac_code r) v.
 Definition seto_data (r : obj) (v : account) : obj :=
-  match r with mkObj x0 x1 x2 x3 x4 x5 x6 => mkObj v x1 x2 x3 x4 x5 x6 end.
+  mkObj v (o_origin r) (o_pending r) (o_dirty r) (o_dirtycode r) (o_suicided r) (o_deleted r).
 Definition seto_origin (r : obj) (v : fmap N) : obj :=
-  match r with mkObj x0 x1 x2 x3 x4 x5 x6 => mkObj x0 v x2 x3 x4 x5 x6 end.
+  mkObj (o_data r) v (o_pending r) (o_dirty r) (o_dirtycode r) (o_suicided r) (o_deleted r).
 Definition seto_pending (r : obj) (v : fmap N) : obj :=
-  match r with mkObj x0 x1 x2 x3 x4 x5 x6 => mkObj x0 x1 v x3 x4 x5 x6 end.
+  mkObj (o_data r) (o_origin r) v (o_dirty r) (o_dirtycode r) (o_suicided r) (o_deleted r).
 Definition seto_dirty (r : obj) (v : fmap N) : obj :=
-  match r with mkObj x0 x1 x2 x3 x4 x5 x6 => mkObj x0 x1 x2 v x4 x5 x6 end.
+  mkObj (o_data r) (o_origin r) (o_pending r) v (o_dirtycode r) (o_suicided r) (o_deleted r).
 Definition seto_dirtycode (r : obj) (v : bool) : obj :=
-  match r with mkObj x0 x1 x2 x3 x4 x5 x6 => mkObj x0 x1 x2 x3 v x5 x6 end.
+  mkObj (o_data r) (o_origin r) (o_pending r) (o_dirty r) v (o_suicided r) (o_deleted r).
 Definition seto_suicided (r : obj) (v : bool) : obj :=
-  match r with mkObj x0 x1 x2 x3 x4 x5 x6 => mkObj x0 x1 x2 x3 x4 v x6 end.
+  mkObj (o_data r) (o_origin r) (o_pending r) (o_dirty r) (o_dirtycode r) v (o_deleted r).
 Definition seto_deleted (r : obj) (v : bool) : obj :=
-  match r with mkObj x0 x1 x2 x3 x4 x5 x6 => mkObj x0 x1 x2 x3 x4 x5 v end.
+  mkObj (o_data r) (o_origin r) (o_pending r) (o_dirty r) (o_dirtycode r) (o_suicided r) v.
 Definition set_trie (r : state) (v : fmap account) : state :=
-  match r with mkState x0 x1 x2 x3 x4 x5 x6 x7 x8 x9 x10 x11 x12 x13 x14 x15 x16 x17 x18 => mkState v x1 x2 x3 x4 x5 x6 x7 x8 x9 x10 x11 x12 x13 x14 x15 x16 x17 x18 end.
+  mkState v (st_objs r) (st_pending r) (st_dirtyset r) (st_destruct r) (st_refund r) (st_thash r) (st_txindex r) (st_logs r) (st_logsize r) (st_preimages r) (st_aladdrs r) (st_alslots r) (st_transient r) (st_journal r) (st_dirties r) (st_revs r) (st_nextrev r) (st_crashed r).
 Definition set_objs (r : state) (v : fmap obj) : state :=
-  match r with mkState x0 x1 x2 x3 x4 x5 x6 x7 x8 x9 x10 x11 x12 x13 x14 x15 x16 x17 x18 => mkState x0 v x2 x3 x4 x5 x6 x7 x8 x9 x10 x11 x12 x13 x14 x15 x16 x17 x18 end.
+  mkState (st_trie r) v (st_pending r) (st_dirtyset r) (st_destruct r) (st_refund r) (st_thash r) (st_txindex r) (st_logs r) (st_logsize r) (st_preimages r) (st_aladdrs r) (st_alslots r) (st_transient r) (st_journal r) (st_dirties r) (st_revs r) (st_nextrev r) (st_crashed r).
 Definition set_pending (r : state) (v : N -> bool) : state :=
-  match r with mkState x0 x1 x2 x3 x4 x5 x6 x7 x8 x9 x10 x11 x12 x13 x14 x15 x16 x17 x18 => mkState x0 x1 v x3 x4 x5 x6 x7 x8 x9 x10 x11 x12 x13 x14 x15 x16 x17 x18 end.
+  mkState (st_trie r) (st_objs r) v (st_dirtyset r) (st_destruct r) (st_refund r) (st_thash r) (st_txindex r) (st_logs r) (st_logsize r) (st_preimages r) (st_aladdrs r) (st_alslots r) (st_transient r) (st_journal r) (st_dirties r) (st_revs r) (st_nextrev r) (st_crashed r).
 Definition set_dirtyset (r : state) (v : N -> bool) : state :=
-  match r with mkState x0 x1 x2 x3 x4 x5 x6 x7 x8 x9 x10 x11 x12 x13 x14 x15 x16 x17 x18 => mkState x0 x1 x2 v x4 x5 x6 x7 x8 x9 x10 x11 x12 x13 x14 x15 x16 x17 x18 end.
+  mkState (st_trie r) (st_objs r) (st_pending r) v (st_destruct r) (st_refund r) (st_thash r) (st_txindex r) (st_logs r) (st_logsize r) (st_preimages r) (st_aladdrs r) (st_alslots r) (st_transient r) (st_journal r) (st_dirties r) (st_revs r) (st_nextrev r) (st_crashed r).
 Definition set_destruct (r : state) (v : N -> bool) : state :=
-  match r with mkState x0 x1 x2 x3 x4 x5 x6 x7 x8 x9 x10 x11 x12 x13 x14 x15 x16 x17 x18 => mkState x0 x1 x2 x3 v x5 x6 x7 x8 x9 x10 x11 x12 x13 x14 x15 x16 x17 x18 end.
+  mkState (st_trie r) (st_objs r) (st_pending r) (st_dirtyset r) v (st_refund r) (st_thash r) (st_txindex r) (st_logs r) (st_logsize r) (st_preimages r) (st_aladdrs r) (st_alslots r) (st_transient r) (st_journal r) (st_dirties r) (st_revs r) (st_nextrev r) (st_crashed r).
 Definition set_refund (r : state) (v : N) : state :=
-  match r with mkState x0 x1 x2 x3 x4 x5 x6 x7 x8 x9 x10 x11 x12 x13 x14 x15 x16 x17 x18 => mkState x0 x1 x2 x3 x4 v x6 x7 x8 x9 x10 x11 x12 x13 x14 x15 x16 x17 x18 end.
+  mkState (st_trie r) (st_objs r) (st_pending r) (st_dirtyset r) (st_destruct r) v (st_thash r) (st_txindex r) (st_logs r) (st_logsize r) (st_preimages r) (st_aladdrs r) (st_alslots r) (st_transient r) (st_journal r) (st_dirties r) (st_revs r) (st_nextrev r) (st_crashed r).
 Definition set_thash (r : state) (v : N) : state :=
-  match r with mkState x0 x1 x2 x3 x4 x5 x6 x7 x8 x9 x10 x11 x12 x13 x14 x15 x16 x17 x18 => mkState x0 x1 x2 x3 x4 x5 v x7 x8 x9 x10 x11 x12 x13 x14 x15 x16 x17 x18 end.
+  mkState (st_trie r) (st_objs r) (st_pending r) (st_dirtyset r) (st_destruct r) (st_refund r) v (st_txindex r) (st_logs r) (st_logsize r) (st_preimages r) (st_aladdrs r) (st_alslots r) (st_transient r) (st_journal r) (st_dirties r) (st_revs r) (st_nextrev r) (st_crashed r).
 Definition set_txindex (r : state) (v : N) : state :=
-  match r with mkState x0 x1 x2 x3 x4 x5 x6 x7 x8 x9 x10 x11 x12 x13 x14 x15 x16 x17 x18 => mkState x0 x1 x2 x3 x4 x5 x6 v x8 x9 x10 x11 x12 x13 x14 x15 x16 x17 x18 end.
+  mkState (st_trie r) (st_objs r) (st_pending r) (st_dirtyset r) (st_destruct r) (st_refund r) (st_thash r) v (st_logs r) (st_logsize r) (st_preimages r) (st_aladdrs r) (st_alslots r) (st_transient r) (st_journal r) (st_dirties r) (st_revs r) (st_nextrev r) (st_crashed r).
 Definition set_logs (r : state) (v : N -> list logrec) : state :=
-  match r with mkState x0 x1 x2 x3 x4 x5 x6 x7 x8 x9 x10 x11 x12 x13 x14 x15 x16 x17 x18 => mkState x0 x1 x2 x3 x4 x5 x6 x7 v x9 x10 x11 x12 x13 x14 x15 x16 x17 x18 end.
+  mkState (st_trie r) (st_objs r) (st_pending r) (st_dirtyset r) (st_destruct r) (st_refund r) (st_thash r) (st_txindex r) v (st_logsize r) (st_preimages r) (st_aladdrs r) (st_alslots r) (st_transient r) (st_journal r) (st_dirties r) (st_revs r) (st_nextrev r) (st_crashed r).
 Definition set_logsize (r : state) (v : N) : state :=
-  match r with mkState x0 x1 x2 x3 x4 x5 x6 x7 x8 x9 x10 x11 x12 x13 x14 x15 x16 x17 x18 => mkState x0 x1 x2 x3 x4 x5 x6 x7 x8 v x10 x11 x12 x13 x14 x15 x16 x17 x18 end.
+  mkState (st_trie r) (st_objs r) (st_pending r) (st_dirtyset r) (st_destruct r) (st_refund r) (st_thash r) (st_txindex r) (st_logs r) v (st_preimages r) (st_aladdrs r) (st_alslots r) (st_transient r) (st_journal r) (st_dirties r) (st_revs r) (st_nextrev r) (st_crashed r).
 Definition set_preimages (r : state) (v : fmap N) : state :=
-  match r with mkState x0 x1 x2 x3 x4 x5 x6 x7 x8 x9 x10 x11 x12 x13 x14 x15 x16 x17 x18 => mkState x0 x1 x2 x3 x4 x5 x6 x7 x8 x9 v x11 x12 x13 x14 x15 x16 x17 x18 end.
+  mkState (st_trie r) (st_objs r) (st_pending r) (st_dirtyset r) (st_destruct r) (st_refund r) (st_thash r) (st_txindex r) (st_logs r) (st_logsize r) v (st_aladdrs r) (st_alslots r) (st_transient r) (st_journal r) (st_dirties r) (st_revs r) (st_nextrev r) (st_crashed r).
 Definition set_aladdrs (r : state) (v : fmap (option nat)) : state :=
-  match r with mkState x0 x1 x2 x3 x4 x5 x6 x7 x8 x9 x10 x11 x12 x13 x14 x15 x16 x17 x18 => mkState x0 x1 x2 x3 x4 x5 x6 x7 x8 x9 x10 v x12 x13 x14 x15 x16 x17 x18 end.
+  mkState (st_trie r) (st_objs r) (st_pending r) (st_dirtyset r) (st_destruct r) (st_refund r) (st_thash r) (st_txindex r) (st_logs r) (st_logsize r) (st_preimages r) v (st_alslots r) (st_transient r) (st_journal r) (st_dirties r) (st_revs r) (st_nextrev r) (st_crashed r).
 Definition set_alslots (r : state) (v : list (list N)) : state :=
-  match r with mkState x0 x1 x2 x3 x4 x5 x6 x7 x8 x9 x10 x11 x12 x13 x14 x15 x16 x17 x18 => mkState x0 x1 x2 x3 x4 x5 x6 x7 x8 x9 x10 x11 v x13 x14 x15 x16 x17 x18 end.
+  mkState (st_trie r) (st_objs r) (st_pending r) (st_dirtyset r) (st_destruct r) (st_refund r) (st_thash r) (st_txindex r) (st_logs r) (st_logsize r) (st_preimages r) (st_aladdrs r) v (st_transient r) (st_journal r) (st_dirties r) (st_revs r) (st_nextrev r) (st_crashed r).
 Definition set_transient (r : state) (v : N -> N -> N) : state :=
-  match r with mkState x0 x1 x2 x3 x4 x5 x6 x7 x8 x9 x10 x11 x12 x13 x14 x15 x16 x17 x18 => mkState x0 x1 x2 x3 x4 x5 x6 x7 x8 x9 x10 x11 x12 v x14 x15 x16 x17 x18 end.
+  mkState (st_trie r) (st_objs r) (st_pending r) (st_dirtyset r) (st_destruct r) (st_refund r) (st_thash r) (st_txindex r) (st_logs r) (st_logsize r) (st_preimages r) (st_aladdrs r) (st_alslots r) v (st_journal r) (st_dirties r) (st_revs r) (st_nextrev r) (st_crashed r).
 Definition set_journal (r : state) (v : list entry) : state :=
-  match r with mkState x0 x1 x2 x3 x4 x5 x6 x7 x8 x9 x10 x11 x12 x13 x14 x15 x16 x17 x18 => mkState x0 x1 x2 x3 x4 x5 x6 x7 x8 x9 x10 x11 x12 x13 v x15 x16 x17 x18 end.
+  mkState (st_trie r) (st_objs r) (st_pending r) (st_dirtyset r) (st_destruct r) (st_refund r) (st_thash r) (st_txindex r) (st_logs r) (st_logsize r) (st_preimages r) (st_aladdrs r) (st_alslots r) (st_transient r) v (st_dirties r) (st_revs r) (st_nextrev r) (st_crashed r).
 Definition set_dirties (r : state) (v : N -> N) : state :=
-  match r with mkState x0 x1 x2 x3 x4 x5 x6 x7 x8 x9 x10 x11 x12 x13 x14 x15 x16 x17 x18 => mkState x0 x1 x2 x3 x4 x5 x6 x7 x8 x9 x10 x11 x12 x13 x14 v x16 x17 x18 end.
+  mkState (st_trie r) (st_objs r) (st_pending r) (st_dirtyset r) (st_destruct r) (st_refund r) (st_thash r) (st_txindex r) (st_logs r) (st_logsize r) (st_preimages r) (st_aladdrs r) (st_alslots r) (st_transient r) (st_journal r) v (st_revs r) (st_nextrev r) (st_crashed r).
 Definition set_revs (r : state) (v : list (N * nat)) : state :=
-  match r with mkState x0 x1 x2 x3 x4 x5 x6 x7 x8 x9 x10 x11 x12 x13 x14 x15 x16 x17 x18 => mkState x0 x1 x2 x3 x4 x5 x6 x7 x8 x9 x10 x11 x12 x13 x14 x15 v x17 x18 end.
+  mkState (st_trie r) (st_objs r) (st_pending r) (st_dirtyset r) (st_destruct r) (st_refund r) (st_thash r) (st_txindex r) (st_logs r) (st_logsize r) (st_preimages r) (st_aladdrs r) (st_alslots r) (st_transient r) (st_journal r) (st_dirties r) v (st_nextrev r) (st_crashed r).
 Definition set_nextrev (r : state) (v : N) : state :=
-  match r with mkState x0 x1 x2 x3 x4 x5 x6 x7 x8 x9 x10 x11 x12 x13 x14 x15 x16 x17 x18 => mkState x0 x1 x2 x3 x4 x5 x6 x7 x8 x9 x10 x11 x12 x13 x14 x15 x16 v x18 end.
+  mkState (st_trie r) (st_objs r) (st_pending r) (st_dirtyset r) (st_destruct r) (st_refund r) (st_thash r) (st_txindex r) (st_logs r) (st_logsize r) (st_preimages r) (st_aladdrs r) (st_alslots r) (st_transient r) (st_journal r) (st_dirties r) (st_revs r) v (st_crashed r).
 Definition set_crashed (r : state) (v : bool) : state :=
-  match r with mkState x0 x1 x2 x3 x4 x5 x6 x7 x8 x9 x10 x11 x12 x13 x14 x15 x16 x17 x18 => mkState x0 x1 x2 x3 x4 x5 x6 x7 x8 x9 x10 x11 x12 x13 x14 x15 x16 x17 v end.
+  mkState (st_trie r) (st_objs r) (st_pending r) (st_dirtyset r) (st_destruct r) (st_refund r) (st_thash r) (st_txindex r) (st_logs r) (st_logsize r) (st_preimages r) (st_aladdrs r) (st_alslots r) (st_transient r) (st_journal r) (st_dirties r) (st_revs r) (st_nextrev r) v.
 Definition set_transient_raw (s : state) (a k v : N) : state :=
   set_transient s (fun x => if N.eqb x a then tupd (st_transient s a) k v else st_transient s x).
 
